@@ -329,7 +329,7 @@ impl PoolRun {
 
 /// Stack of the thread the deep-chain cases run on: that of a tokio worker thread (2 MiB by default), which is where
 /// a node runs the pool. The ancestor walk of the tracker is recursive; a stack overflow is not a panic (the process
-/// aborts), so the depth the cases use must fit - see notes/C08.md for the measured limit.
+/// aborts), so before fix D31 the depths had to fit (notes/C08.md has the measured limit); the walk is a loop now and one case per run goes far beyond it.
 const WORKER_STACK: usize = 2 << 20;
 
 fn on_worker_stack<R: Send>(f: impl FnOnce() -> R + Send) -> R {
@@ -686,7 +686,10 @@ fn main() {
     // prefix advances to the top. Depths just over 1024 and 1100..2500 (thorough: up to 4000).
     let n_deep = if args.thorough { 40 } else { 6 };
     for k in 0..n_deep {
-        let depth = if k % 6 == 5 { rng.range(1026, 1100) } else if args.thorough && k % 6 == 2 { rng.range(2500, 4000) } else { rng.range(1100, 2500) } as usize;
+        // k == 0: far beyond what a recursive walk survives on this stack (defect D31, fixed: before the fix the process
+        // aborted with a stack overflow at about 6500 ancestors; should the recursion return, this case kills the harness
+        // and the check reports the crash)
+        let depth = if k == 0 { rng.range(20000, 30000) } else if k % 6 == 5 { rng.range(1026, 1100) } else if args.thorough && k % 6 == 2 { rng.range(2500, 4000) } else { rng.range(1100, 2500) } as usize;
         fin_deep_case(&mut rec, &mut rng, depth, k % 5);
     }
 
